@@ -56,7 +56,7 @@ def run(ctx):
     for sf, origin, log in objs_:
         if not in_domain_ssc(sf):
             res.count("skipped_out_of_domain"); continue
-        if not objs.scan_safe(ssc_params(sf)):
+        if not objs.scan_safe(ssc_params(sf), lead_nl=len(sf) == 0):
             res.count("skipped_unsafe_for_msdparser"); continue
         d = objs.dump_ssc(sf)
         reqs.append({"op": "obj.ser_ssc", "sf": d}); metas.append((sf, origin, log, d))
